@@ -150,6 +150,7 @@ class Interp:
         self.contracts = {}         # qualname -> contract used modularly at call sites
         self.verifying = None       # qualname of the function under verification (executed by body)
         self.call_depth = 0
+        self.in_body = False        # set once the body of the function under verification is being executed
         self.inline_log = set()
         self.contract_log = set()
         self.max_depth = 40
@@ -803,6 +804,9 @@ class Interp:
         return SuperProxy(f.cls, recv, self.class_of(recv))
 
     def e_ListComp(self, node, frame):
+        hk = self.hooks.get('comprehension:' + ast.unparse(node))
+        if hk is not None:
+            return hk(self, frame, node)
         return PyList(self._comp(node, frame, lambda fr: self.eval(node.elt, fr)))
 
     def e_GeneratorExp(self, node, frame):
@@ -930,12 +934,13 @@ class Interp:
         return info._defaults, info._kw_defaults
 
     def call_function(self, info, args, kwargs, force_body=False):
-        if not force_body and info.qualname in self.contracts and info.qualname != self.verifying:
+        if not force_body and info.qualname in self.contracts and (info.qualname != self.verifying or self.in_body):
+            # (a recursive call of the function under verification uses its own contract: induction)
             from . import modular
             self.contract_log.add(info.qualname)
             return modular.apply_contract(self, self.contracts[info.qualname], info, args, kwargs)
         model = self.lib.function_model(info.qualname)
-        if model is None and info.qualname != self.verifying:
+        if model is None and (info.qualname != self.verifying or self.in_body):
             model = self.hooks.get('model:' + info.qualname)
             if model is not None:
                 self.ctx.lib_used.add('assumed model of %s supplied by the contract of %s' % (info.qualname, self.verifying))
